@@ -69,7 +69,7 @@ func (p *Parser) parseNext() error {
 
 	// Check for potential operator (starts with letter, or is one of the
 	// single-character text operators ' and ")
-	if isLetter(c) || c == '\'' || c == '"' {
+	if (isLetter(c) && !p.atKeywordOperand()) || c == '\'' || c == '"' {
 		return p.parseOperator()
 	}
 
@@ -82,6 +82,20 @@ func (p *Parser) parseNext() error {
 	verifYield("operand", p)
 	p.operandStack = append(p.operandStack, operand)
 	return nil
+}
+
+// atKeywordOperand reports whether the token at the current position is one of
+// the object keywords true, false or null, which are operands, not operators.
+func (p *Parser) atKeywordOperand() bool {
+	end := p.pos
+	for end < len(p.data) && !isWhitespace(p.data[end]) && !isDelimiter(p.data[end]) {
+		end++
+	}
+	switch string(p.data[p.pos:end]) {
+	case "true", "false", "null":
+		return true
+	}
+	return false
 }
 
 // parseOperator parses an operator and creates an operation with the current
@@ -166,10 +180,9 @@ func (p *Parser) parseOperand() (core.Object, error) {
 
 	// Boolean or null
 	if c == 't' || c == 'f' || c == 'n' {
-		// Check if it's actually an operator
-		// Peek ahead to see if followed by whitespace
+		// The keyword ends at whitespace or at a delimiter (e.g. "true]")
 		end := p.pos
-		for end < len(p.data) && !isWhitespace(p.data[end]) {
+		for end < len(p.data) && !isWhitespace(p.data[end]) && !isDelimiter(p.data[end]) {
 			end++
 		}
 		token := string(p.data[p.pos:end])
